@@ -271,6 +271,137 @@ def client_op(op: str, T: int, interval, frame: int = 2, path: str = "copy", max
     return scenario
 
 
+def ks_replay(kernel: str, T, R, log: list):
+    """Concrete replay of a failed KS obligation against the REAL function: the iteration found by the solver is played from a
+    fresh start (nothing waited yet, so the loop-head state is the initial one), then the environment behaves adversarially within
+    its contract (waits as long as allowed, then times out).  Oracle of C11: elapsed <= T, TimeoutError => elapsed == T."""
+    from easynetwork.lowlevel import _utils
+    from easynetwork.lowlevel.api_sync.transports import base_selector
+    from easynetwork.lowlevel.api_sync.transports.abc import StreamWriteTransport
+
+    interval = math.inf if R == "inf" else R
+
+    def scenario(S):
+        clock = {"now": 0.0}
+        steps = [list(x) for x in log]
+
+        class FakeTime:
+            @staticmethod
+            def perf_counter():
+                return clock["now"]
+
+        class Sel:
+            def __enter__(self):
+                return self
+
+            def __exit__(self, *a):
+                return None
+
+            def register(self, *a):
+                return None
+
+            def select(self, timeout=None):
+                for st in steps:
+                    if st[0] == "sel":
+                        steps.remove(st)
+                        clock["now"] += st[1]
+                        return [1] if st[2] else []
+                # adversarial default: not ready until the full wait has elapsed
+                if timeout is None:
+                    return [1]
+                clock["now"] += timeout
+                return []
+
+        class Tr(base_selector.SelectorBaseTransport, StreamWriteTransport):
+            def close(self):
+                pass
+
+            def is_closed(self):
+                return False
+
+            @property
+            def extra_attributes(self):
+                return {}
+
+            def send(self, data, timeout):
+                for st in steps:
+                    if st[0] == "call":
+                        steps.remove(st)
+                        clock["now"] += st[1]
+                        if st[3]:
+                            return max(1, min(len(data), int(st[2]) or 1))
+                        raise TimeoutError("scripted")
+                clock["now"] += timeout
+                raise TimeoutError("adversarial default")
+
+        class TrMsg(Tr):
+            def _retry(self, callback, timeout):
+                for st in steps:
+                    if st[0] == "call":
+                        steps.remove(st)
+                        clock["now"] += st[1]
+                        if st[3]:
+                            return int(st[2]), timeout - st[1]
+                        raise TimeoutError("scripted")
+                clock["now"] += timeout
+                raise TimeoutError("adversarial default")
+
+        def cb():
+            for st in steps:
+                if st[0] == "cb":
+                    steps.remove(st)
+                    if st[1] == 1:
+                        raise base_selector.WouldBlockOnRead(5)
+                    if st[1] == 2:
+                        raise base_selector.WouldBlockOnWrite(5)
+                    return "result"
+            raise base_selector.WouldBlockOnRead(5)  # adversarial default: never ready
+
+        saved = _utils.time
+        _utils.time = FakeTime
+        returned = None
+        try:
+            try:
+                if kernel == "retry":
+                    returned = Tr(interval, selector_factory=Sel)._retry(cb, T)[1]
+                    outcome = "returned"
+                elif kernel == "send_all":
+                    Tr(interval, selector_factory=Sel).send_all(b"xxxx", T)
+                    outcome = "returned"
+                else:
+                    from easynetwork.lowlevel.api_sync.transports.socket import SocketStreamTransport
+
+                    import socket as _sk
+
+                    obj = TrMsg(interval, selector_factory=Sel)
+                    rs = _sk.socket(_sk.AF_INET, _sk.SOCK_STREAM)  # never used for I/O (_retry is scripted); only type-checked
+                    try:
+                        obj._SocketStreamTransport__socket = rs
+                        SocketStreamTransport.send_all_from_iterable(obj, [b"ab", b"c"], T)
+                    finally:
+                        rs.close()
+                    outcome = "returned"
+            except TimeoutError:
+                outcome = "timeout"
+            except Exception as e:  # noqa: BLE001
+                outcome = "raised:" + type(e).__name__ + ":" + str(e)[:80]
+        finally:
+            _utils.time = saved
+        elapsed = clock["now"]
+        eps = 1e-9
+        ok = elapsed <= T + eps
+        if outcome == "timeout" and abs(elapsed - T) > eps:
+            ok = False
+        if outcome == "returned" and returned is not None and abs(returned - (T - elapsed)) > eps:
+            ok = False
+        if outcome.startswith("raised:"):
+            ok = None  # replay harness could not drive the function: inconclusive
+            return Outcome(ok=True, skeleton=("inconclusive",), tags=(), detail={"inconclusive": outcome})
+        return Outcome(ok=ok, skeleton=(outcome,), tags=("ks-replay",), detail={"kernel": kernel, "T": T, "elapsed": elapsed, "outcome": outcome, "returned_timeout": returned, "script": log})
+
+    return scenario
+
+
 def shards(tier: str):
     out = []
     quick = tier == "quick"
@@ -296,4 +427,6 @@ def shards(tier: str):
                 add(f"client/{op}/T{T}/i{ivn}", "client_op", dict(op=op, T=T, interval=iv, frame=1, path="copy", max_eagain=1, packets=2 if op == "iter" else 1), cost=20 * (T + 1) ** 2)
             if not quick:
                 add(f"client/recv-buf/T{T}/i{ivn}", "client_op", dict(op="recv", T=T, interval=iv, frame=2, path="buf", max_eagain=2), cost=20 * (T + 1) ** 2)
+    # KS engine: loop-head induction for the timeout book-keeping loops (unbounded number of wake-ups / partial writes)
+    out.append({"name": "ks/retry-send_all-sendmsg/loop-head-induction", "ks": "ks.retry:run_all", "scenario": "ks.retry:run_all", "params": {}, "budget": 120, "cost": 1})
     return out
